@@ -19,7 +19,8 @@ META = {
         'mutated by nothing but the enumerated operations of the read loop - the transport read into buffer[read cursor..], the '
         'sentinel store at buffer[read cursor], growth by extend - and by nothing at all outside ReadConnection\'s own receive '
         'functions: any further writer (copy_within, truncate, shrink_to_fit, clear, fill, drain, mem::take ...) moves or frees '
-        'bytes that escaped items still borrow; (R11.3) `unsafe` lifetime extension by transmute / from_raw_parts is absent. '
+        'bytes that escaped items still borrow; (R11.4, same condition) the reply stream receives only while replies are owed and never after a failed '
+        'receive (rule code of C06: R06.3-R06.5) - every extra receive rewrites the buffer under items already handed out; (R11.3) `unsafe` lifetime extension by transmute / from_raw_parts is absent. '
         'Not produced: a demonstration of the overwrite (needs execution).'),
     'assumptions': ['a value can hold a borrow only if its type mentions a reference, a lifetime or a type parameter (Rust type system)'],
 }
@@ -192,6 +193,22 @@ def check(fx, rep, tier):
     for cn in ('zlink_tokio', 'zlink_smol'):
         crate = fx.crate(cn, 'full')
         check_crate(fx, rep, crate, 'full', all_sites)
+    # R11.4: while items escape the borrow (R11.1), every additional receive of the stream overwrites what earlier items point to;
+    # the stream must therefore read only what it is owed and never again after a failed receive (rule code of C06)
+    if esc:
+        rep.rule('R11.4', 'while such an escape exists: the reply stream starts a receive only while replies are owed and never after a failed receive (R06.3 / R06.4 / R06.5 of C06)')
+        import engine, c06
+        sub = engine.Report('C06', 'quick')
+        for cfg in ['full']:
+            c06.check_stream(fx, sub, fx.crate('zlink_core', cfg), cfg)
+        n4 = 0
+        for i in sub.insts:
+            if i.rule in ('R06.3', 'R06.4', 'R06.5'):
+                n4 += 1
+                (rep.ok if i.ok else rep.bad)('R11.4', i.rule + '|' + i.key, i.where,
+                                              i.msg if i.ok else i.msg + ' - every extra receive rewrites the buffer that already yielded items still borrow from', i.detail)
+        if not n4:
+            rep.bad('R11.4', 'anchor', '-', 'reply-stream bookkeeping instances not found')
     rep.note('laundering sites enumerated: %s' % sorted({s.key() for s in all_sites}))
     rep.floor('R11.1', 1, 'laundering sites')
     return META
